@@ -158,7 +158,7 @@ def run_case(rid, kind, d, strategy, rsmi=None, bypass=False, automorphism=False
 # --------------------------------------------------------------------------- #
 # pruning differential (C11; classifier reused by C05)
 # --------------------------------------------------------------------------- #
-KF_PRUNE = "synreactor-wl-orbit-pruning"
+KF_PRUNE = "synreactor-pattern-orbit-pruning"
 
 
 def pruning_case(ctx, rid, kind, d, strategy, automorphism=False, rsmi=None, tag="corpus own-template"):
@@ -184,7 +184,7 @@ def pruning_case(ctx, rid, kind, d, strategy, automorphism=False, rsmi=None, tag
         ctx.violation("pruning-changes-results", {**wit, "lost": lost[:3], "extra": extra[:3]},
                       f"pruned result set differs from gluing every raw match: lost {len(lost)}, extra {len(extra)} "
                       f"(raw matches {a['n_raw']} -> {a['n_pruned']})", finding=finding,
-                      witness_id=f"{rid}/{kind}/{d}/{strategy}/{'exact' if automorphism else 'wl'}" if rsmi is None else None)
+                      witness_id=f"{rid}/{kind}/{d}" if rsmi is None else None)
     ctx.case(("prune", rid, kind, d, strategy, automorphism, rsmi), nontrivial=a["n_raw"] >= 2,
              sample={"space": tag, **wit, "raw_matches": a["n_raw"], "kept": a["n_pruned"], "results": len(a["std"])}
              if ctx.rng.random() < 0.01 else None)
